@@ -18,7 +18,7 @@
      attenuation registers hold instrument level + volume attenuation on the carriers (FM), or
      volume attenuation + first envelope level (PSG).
   4. Extent (songs with at most one loop point per track, at bracket depth 0): without loop points the log ends in update F(longest track); when every channel
-     loops with the same loop length L and M is the tick at which the last channel reaches its
+     loops with the same loop length L ≥ 2 ticks (a loop shorter than one update has no place for a marker) and M is the tick at which the last channel reaches its
      loop point, the loop marker is in update F(M) and the log ends one loop length later: in the update that plays
      tick τ + L for a tick τ ≥ M of update F(M).
   5. Observation: the log is cut into updates by its waits (every write must sit on a multiple of
@@ -478,7 +478,7 @@ def judgeLog (song : Song) (tab : InsTab) (info : VgmSpec.Info) : Except String 
         else if f ≠ lastFrame then .error s!"extent log ends in update {lastFrame}, the longest track ends in update {f}"
         else .ok "end"
       | none => .error s!"extent log ends in update {lastFrame}, before the longest track ends (tick {tend})"
-    else if loops.length = lines.length ∧ (loops.map (·.2)).eraseDups.length = 1 then
+    else if loops.length = lines.length ∧ (loops.map (·.2)).eraseDups.length = 1 ∧ loops.all (·.2 ≥ 2) then
       let m := (loops.map (·.1)).foldl max 0
       let len := (loops.head?.map (·.2)).getD 0
       match info.loopIdx, frameOf table m with
